@@ -128,7 +128,7 @@ type env struct {
 	nontrivial bool
 	ftRng      *core.Rng // first-touch matrix: independent of the tree
 	quiet      bool      // only compute values (used by the minimiser)
-	noExclude  bool // pinned witnesses: known-finding exclusions off
+	noExclude  bool      // pinned witnesses: known-finding exclusions off
 }
 
 func newEnv(st *core.Stats, rng *core.Rng) *env {
